@@ -26,7 +26,7 @@ static int pdec_run(const pktlist_t *pk,pdec_t *o,int keep){
   o->ch=vi.channels; o->rate=vi.rate; o->bs0=vorbis_info_blocksize(&vi,0); o->bs1=vorbis_info_blocksize(&vi,1);
   if(vorbis_synthesis_init(&vd,&vi)){ o->hdr_err=-998; vorbis_comment_clear(&vc); vorbis_info_clear(&vi); return -1; }
   vorbis_block_init(&vd,&vb);
-  if(keep){ o->pcm=calloc(o->ch,sizeof(float*)); }
+  if(keep&1){ o->pcm=calloc(o->ch,sizeof(float*)); }
   for(int i=3;i<pk->n;i++){
     pkt_to_ogg(&pk->v[i],&op);
     int r=vorbis_synthesis(&vb,&op);
@@ -38,7 +38,8 @@ static int pdec_run(const pktlist_t *pk,pdec_t *o,int keep){
     } else o->syn_err++;
     float **pcm; int n;
     while((n=vorbis_synthesis_pcmout(&vd,&pcm))>0){
-      if(keep){
+      if((keep&2) && n>1 && ((i+o->n)&1)) n=(n+1)/2;   /* take fewer samples than offered: the next pcmout must continue where this read stopped */
+      if(keep&1){
         if(o->n+n>o->cap){ long c=o->cap?o->cap*2:16384; while(c<o->n+n)c*=2; for(int k=0;k<o->ch;k++) o->pcm[k]=realloc(o->pcm[k],sizeof(float)*c); o->cap=c; }
         for(int k=0;k<o->ch;k++) memcpy(o->pcm[k]+o->n,pcm[k],sizeof(float)*n);
       }
@@ -106,8 +107,11 @@ static void case_c04(const drvargs_t *a,long id){
   c.chunk=(int)rng_below(&r,CHUNK_NKINDS); if(c.chunk==CHUNK_1 && N>20000) c.chunk=CHUNK_RANDOM;
   c.lazy=(int)rng_below(&r,2);
   if(c.channels>8 && N>6000){ N%=6000; c.nsamples=N; }
+  if(id%16==5) c.refused_wrote=1+(int)rng_below(&r,3);   /* an over-long vorbis_analysis_wrote in mid-stream is refused and must not count */
   enccfg_json(&c,desc,sizeof desc);
   encres_t er; int ret=enc_run(&c,&er);
+  if(!ret && (er.wrote_errors || (er.refused_wrote_ret && er.refused_wrote_ret!=OV_EINVAL))) res_viol("C04","submission-refused","%ld correct vorbis_analysis_wrote calls refused; the over-long report returned %d: %s",er.wrote_errors,er.refused_wrote_ret,desc);
+  if(!ret && er.refused_wrote_ret) res_count("encodes_with_a_refused_overlong_report",1);
   if(ret){
     if(ret!=OV_EINVAL&&ret!=OV_EIMPL&&ret!=OV_EFAULT) res_viol("C15","setup-return-domain","%d: %s",ret,desc);
     res_count("setups_refused",1); res_sample("refused(%d): %s",ret,desc); encres_free(&er); res_end(); return;
@@ -222,7 +226,7 @@ static void case_c06(const drvargs_t *a,long id,const char *envpath){
     encres_t er; int ret=enc_run(&c,&er);
     if(ret){ res_count("setups_refused",1); encres_free(&er); continue; }
     pdec_t pd;
-    if(pdec_run(&er.pk,&pd,1)||pd.syn_err){ res_viol("C05","decode-rejected","%s",desc); pdec_free(&pd); encres_free(&er); continue; }
+    if(pdec_run(&er.pk,&pd,(id&1)?3:1)||pd.syn_err){ res_viol("C05","decode-rejected","%s",desc); pdec_free(&pd); encres_free(&er); continue; }
     res_eval(1); res_count("encodes",1);
     if(pd.n!=N){ res_viol("C04","packet-decode-count","decoded %ld, N=%ld: %s",pd.n,N,desc); pdec_free(&pd); encres_free(&er); continue; }
     int ok=1;
@@ -592,12 +596,17 @@ static void case_c15(const drvargs_t *a,long id){
         static const long Ms[]={0,1,5000,700};
         long M=Ms[rng_below(&r,4)]; if(ch>32 && M>700) M=700; long done=0, pk=0;
         int sig= rng_chance(&r,0.4)?SIG_NOISE:(rng_chance(&r,0.5)?SIG_BURSTS:(rng_chance(&r,0.5)?SIG_OVER:SIG_ALT)); uint64_t ss=rng_next(&r);   /* incl. input hotter than full scale */
+        ogg_int64_t lastg=-1; int overlong=0; int mistake= rng_chance(&r,0.25);   /* an application error in mid-stream: more samples reported than were requested */
         while(done<M){ long n=(long)rng_range(&r,1,2048); if(n>M-done) n=M-done; float **b=vorbis_analysis_buffer(&vd,(int)n);
           for(int c=0;c<ch;c++) for(long i=0;i<n;i++) b[c][i]=sig_sample(sig,ss,c,done+i,rate,M);
-          vorbis_analysis_wrote(&vd,(int)n); done+=n;
-          while(vorbis_analysis_blockout(&vd,&vb)==1){ vorbis_analysis(&vb,NULL); vorbis_bitrate_addblock(&vb); while(vorbis_bitrate_flushpacket(&vd,&op)) pk++; } }
+          if(mistake && !overlong && rng_chance(&r,0.3)){ overlong=1; int wr=vorbis_analysis_wrote(&vd,(int)n+(int)rng_range(&r,100000,4000000)); res_count("overlong_wrote_reports",1);
+            if(wr!=OV_EINVAL) res_viol("C15","overlong-wrote-not-refused","vorbis_analysis_wrote with more samples than requested returned %d: %s",wr,desc);
+            if(rng_chance(&r,0.5)) while(vorbis_analysis_blockout(&vd,&vb)==1){ vorbis_analysis(&vb,NULL); vorbis_bitrate_addblock(&vb); while(vorbis_bitrate_flushpacket(&vd,&op)){ pk++; lastg=op.granulepos; } } }
+          { int wr=vorbis_analysis_wrote(&vd,(int)n); if(wr) res_viol("C15","wrote-refused-after-refused-report","a correct vorbis_analysis_wrote(%ld) returned %d%s: %s",n,wr,overlong?" after an over-long report had been refused":"",desc); } done+=n;
+          while(vorbis_analysis_blockout(&vd,&vb)==1){ vorbis_analysis(&vb,NULL); vorbis_bitrate_addblock(&vb); while(vorbis_bitrate_flushpacket(&vd,&op)){ pk++; lastg=op.granulepos; } } }
         vorbis_analysis_wrote(&vd,0);
-        while(vorbis_analysis_blockout(&vd,&vb)==1){ vorbis_analysis(&vb,NULL); vorbis_bitrate_addblock(&vb); while(vorbis_bitrate_flushpacket(&vd,&op)) pk++; }
+        while(vorbis_analysis_blockout(&vd,&vb)==1){ vorbis_analysis(&vb,NULL); vorbis_bitrate_addblock(&vb); while(vorbis_bitrate_flushpacket(&vd,&op)){ pk++; lastg=op.granulepos; } }
+        if(overlong && M>0 && lastg!=M) res_viol("C15","refused-report-changed-the-stream","%ld samples accepted, one over-long report refused, final granule position %lld: %s",M,(long long)lastg,desc);
         res_count("encoded_after_setup",1); res_count("packets_after_setup",pk);
         vorbis_block_clear(&vb); vorbis_dsp_clear(&vd); vorbis_comment_clear(&vc);
       }
@@ -751,6 +760,26 @@ static void case_c16(const drvargs_t *a,long id){
         if(succ!=cnt){ res_viol("C16","count-vs-successful-queries","tag '%s': count %d, %d queries succeed",t,cnt,succ); break; }
       }
       res_count("query_matches",qmatch);
+      if(same && !res_nviol()){ /* the edit history: tags appended to the structure the DECODER filled in, written out again and read back */
+        int k=(int)rng_range(&r,1,6); char addbuf[6][48];
+        for(int j=0;j<k;j++){ snprintf(addbuf[j],sizeof addbuf[j],"EDIT%d=added %d of %d to %d",j,j,k,n);
+          if(j&1){ char *eq=strchr(addbuf[j],'='); *eq=0; vorbis_comment_add_tag(&dc,addbuf[j],eq+1); *eq='='; } else vorbis_comment_add(&dc,addbuf[j]); }
+        res_eval(1);
+        int okk=(dc.comments==n+k);
+        for(int i=0;i<n && okk;i++) if(dc.comment_lengths[i]!=cm[i].len || memcmp(dc.user_comments[i],cm[i].p,cm[i].len)) okk=0;
+        for(int j=0;j<k && okk;j++) if(dc.comment_lengths[n+j]!=(int)strlen(addbuf[j]) || strcmp(dc.user_comments[n+j],addbuf[j])) okk=0;
+        if(!okk) res_viol("C16","edited-list-differs","after appending %d tags to the read-back list of %d: count %d",k,n,dc.comments);
+        else {
+          ogg_packet ep; memset(&ep,0,sizeof ep);
+          if(vorbis_commentheader_out(&dc,&ep)) res_viol("C16","commentheader-out-failed","on the edited read-back list");
+          else { vorbis_info d2; vorbis_comment c2; vorbis_info_init(&d2); vorbis_comment_init(&c2); ep.packetno=1;
+            int f0=vorbis_synthesis_headerin(&d2,&c2,&h[0]); int f1=f0?f0:vorbis_synthesis_headerin(&d2,&c2,&ep);
+            if(f1) res_viol("C16","comment-header-rejected","edited list: headerin %d/%d",f0,f1);
+            else { int ok2=(c2.comments==n+k); for(int i=0;i<n+k && ok2;i++) if(c2.comment_lengths[i]!=dc.comment_lengths[i] || memcmp(c2.user_comments[i],dc.user_comments[i],dc.comment_lengths[i])) ok2=0;
+              if(!ok2) res_viol("C16","edited-list-differs","edited list of %d+%d read back as %d entries",n,k,c2.comments); else res_count("edited_lists_round_tripped",1); }
+            vorbis_comment_clear(&c2); vorbis_info_clear(&d2); free(ep.packet); }
+        }
+      }
       if(same && !res_nviol()) res_bucket("n%s|%s|%s|%s|bytes%s",ncls==0?"0":ncls==1?"1":n<13?"2-12":n<201?"13-200":">200",use_explicit?"explicit":"cstr",has_null?"nullentry":"nonull",way?"commentheader_out":"headerout",totbytes<100?"<100":totbytes<10000?"<10k":">10k");
     }
     if(c16_libc_case_calls){ res_viol("C16","libc-case-mapping-consulted","%ld calls reached toupper/tolower/strcasecmp/ctype tables from library code",c16_libc_case_calls); c16_libc_case_calls=0; }
